@@ -32,6 +32,11 @@ func TestC17(t *testing.T) {
 		size := rapid.SampledFrom([]int{1, 2, 3, 5, 17, 63, 64, 65, 100, 127, 128, 129, 191, 192, 193, 250, 254, 255, 256, 257, 300}).Draw(t, "size")
 		declared := rapid.IntRange(0, 3).Draw(t, "declared") > 0
 		// the cardinality limit of derived enums on every construction path: exactly 254..257 distinct values in the data
+		// declared lists that use the whole range of codes (254..256 values)
+		if rapid.IntRange(0, 9).Draw(t, "fullfocus") == 0 {
+			size = rapid.SampledFrom([]int{254, 255, 255, 255, 256}).Draw(t, "fullsize")
+			declared = true
+		}
 		limitFocus := rapid.IntRange(0, 7).Draw(t, "limitfocus") == 0
 		if limitFocus {
 			size = rapid.SampledFrom([]int{254, 255, 256, 257}).Draw(t, "limitsize")
@@ -58,7 +63,7 @@ func TestC17(t *testing.T) {
 		}
 		// data: ranks (or -1 = null); cover the boundary ranks on purpose
 		ranks := make([]int, n)
-		boundary := []int{0, 62, 63, 64, 65, 126, 127, 128, 129, 190, 191, 192, 193, 253, 254, size - 1}
+		boundary := []int{0, 62, 63, 64, 65, 126, 127, 128, 129, 190, 191, 192, 193, 253, 254, size - 1, size - 1, size - 2}
 		coverAll := rapid.IntRange(0, 3).Draw(t, "coverall") == 0 // use every value (cardinality = size)
 		if limitFocus {
 			coverAll = true
